@@ -198,11 +198,189 @@ fn rand_name(r: &mut Rng) -> String {
     }
 }
 
+fn pick_s(r: &mut Rng, xs: &[&str]) -> String {
+    r.pick(xs).to_string()
+}
+
+fn perturb(r: &mut Rng, s: &str) -> String {
+    // one random byte-level edit with small probability
+    if !r.chance(1, 6) || s.is_empty() {
+        return s.to_string();
+    }
+    let mut cs: Vec<char> = s.chars().collect();
+    let pos = r.below(cs.len());
+    match r.below(4) {
+        0 => {
+            cs.remove(pos);
+        }
+        1 => cs.insert(pos, *r.pick(&['/', ',', '=', ';', ' ', '%', 'a', 'Z', '0', '\t', '\u{e9}'])),
+        2 => cs[pos] = *r.pick(&['/', ',', '=', ';', ' ', '%', 'a', 'Z', '0', '+']),
+        _ => {
+            let c = cs[pos];
+            cs.insert(pos, c)
+        }
+    }
+    cs.into_iter().collect()
+}
+
+fn hex64(r: &mut Rng) -> String {
+    (0..64).map(|_| char::from_digit(r.below(16) as u32, 16).unwrap()).collect()
+}
+
+/// A random wire-level request, biased towards the structure (and the dictionary tokens of fuzz/dict.txt)
+/// that lets it travel deep into the pipeline. Signatures are never valid (no expectation is implied).
+fn rand_req(r: &mut Rng, id: usize) -> serde_json::Value {
+    let method = pick_s(r, &["GET", "POST", "PUT", "DELETE", "HEAD", "M-SEARCH", "PATCH"]);
+    let regions = ["us-east-1", "us-west-2", "eu", ""];
+    let services = ["service", "s3", "iam"];
+    let region = pick_s(r, &regions);
+    let service = pick_s(r, &services);
+    let base_day = 735840i64; // 2015-08-30
+    let now_sec = 45360i64;
+    // request time: usually near the server time, sometimes around the window edges
+    let off: i64 = match r.below(6) {
+        0 => -900 + (r.below(5) as i64 - 2),
+        1 => 900 + (r.below(5) as i64 - 2),
+        2 => (r.below(4000) as i64) - 2000,
+        _ => (r.below(600) as i64) - 300,
+    };
+    let t = now_sec + off;
+    let (dd, ts) = if t < 0 { (-1, t + 86400) } else if t >= 86400 { (1, t - 86400) } else { (0, t) };
+    let day = 30 + dd;
+    let stamp = if r.chance(1, 8) {
+        rand_ts(r)
+    } else if r.chance(1, 3) {
+        format!("2015-08-{:02}T{:02}:{:02}:{:02}Z", day, ts / 3600, (ts % 3600) / 60, ts % 60)
+    } else {
+        format!("201508{:02}T{:02}{:02}{:02}Z", day, ts / 3600, (ts % 3600) / 60, ts % 60)
+    };
+    let cdate = if r.chance(1, 10) { "20150829".to_string() } else { format!("201508{:02}", day) };
+    let cred_region = if r.chance(1, 8) { pick_s(r, &regions) } else { region.clone() };
+    let cred_service = if r.chance(1, 8) { pick_s(r, &services) } else { service.clone() };
+    let term = if r.chance(1, 12) { pick_s(r, &["aws4_reques", "AWS4_REQUEST", "", "aws4_request/x"]) } else { "aws4_request".to_string() };
+    let cred = perturb(r, &format!("AKIDEXAMPLE/{}/{}/{}/{}", cdate, cred_region, cred_service, term));
+    let mut headers: Vec<(String, Vec<u8>)> = Vec::new();
+    if !r.chance(1, 15) {
+        headers.push(("Host".into(), b"example.amazonaws.com".to_vec()));
+    }
+    let extra_names = ["x-amz-target", "x-amz-content-sha256", "x-amz-meta-a", "content-type", "etag", "x-req", "my-header"];
+    let mut present: Vec<String> = vec!["host".into()];
+    for n in extra_names.iter() {
+        if r.chance(1, 4) {
+            let v = match *n {
+                "content-type" => pick_s(r, &["application/x-www-form-urlencoded", "application/x-www-form-urlencoded; charset=utf-8",
+                                               "application/x-www-form-urlencoded; charset=foobar", "text/plain", "application/json",
+                                               "application/x-www-form-urlencoded;charset=latin1", ""]),
+                _ => rand_piece(r, &[]).chars().filter(|c| (*c as u32) >= 0x20 && (*c as u32) != 0x7f).collect(),
+            };
+            headers.push((n.to_string(), v.into_bytes()));
+            present.push(n.to_string());
+        }
+    }
+    let carrier = r.below(10);
+    let alg = if r.chance(1, 10) { pick_s(r, &["AWS4-HMAC-SHA512", "aws4-hmac-sha256", "Basic", ""]) } else { "AWS4-HMAC-SHA256".to_string() };
+    let mut signed: Vec<String> = present.iter().filter(|_| r.chance(3, 4)).cloned().collect();
+    let mut path = if r.chance(1, 3) { rand_path(r) } else { pick_s(r, &["/", "/a/b", "/a%20b/", "/x/../y"]) };
+    path = path.chars().filter(|c| !"?#".contains(*c) && (*c as u32) > 0x20 && (*c as u32) != 0x7f).collect();
+    if !path.starts_with('/') {
+        path.insert(0, '/');
+    }
+    let mut query = if r.chance(1, 2) { rand_query(r) } else { String::new() };
+    query = query.chars().filter(|c| *c != '#' && (*c as u32) > 0x20 && (*c as u32) != 0x7f).collect();
+    let token = if r.chance(1, 5) { Some("AQoDYXdzEPT//////////wEXAMPLE+tok/en==".to_string()) } else { None };
+    let sig = if r.chance(1, 5) { rand_piece(r, &[' ', ',']) } else { hex64(r) };
+    if carrier < 6 {
+        // Authorization header
+        if !r.chance(1, 12) {
+            headers.push((if r.chance(1, 6) { "Date".into() } else { "X-Amz-Date".into() }, stamp.clone().into_bytes()));
+            signed.push("x-amz-date".into());
+        }
+        if let Some(t) = &token {
+            headers.push(("X-Amz-Security-Token".into(), t.clone().into_bytes()));
+        }
+        signed.sort();
+        signed.dedup();
+        let sep = pick_s(r, &[", ", ",", " , ", ",  "]);
+        let mut parts: Vec<String> = Vec::new();
+        if !r.chance(1, 12) {
+            parts.push(format!("Credential={}", cred));
+        }
+        if !r.chance(1, 12) {
+            parts.push(format!("SignedHeaders={}", perturb(r, &signed.join(";"))));
+        }
+        if !r.chance(1, 12) {
+            parts.push(format!("Signature={}", sig));
+        }
+        if r.chance(1, 10) {
+            parts.push(pick_s(r, &["bogus", "Credential=x", "=", "k=v"]));
+        }
+        let val: String = format!("{} {}", alg, parts.join(&sep)).chars().filter(|c| (*c as u32) >= 0x20 && (*c as u32) != 0x7f).collect();
+        let val_bytes: Vec<u8> = val.chars().map(|c| if (c as u32) < 256 { c as u32 as u8 } else { b'?' }).collect();
+        headers.push(("Authorization".into(), val_bytes));
+        if r.chance(1, 15) {
+            query.push_str("&X-Amz-Algorithm=AWS4-HMAC-SHA256");
+        }
+    } else if carrier < 9 {
+        signed.sort();
+        signed.dedup();
+        let enc = |s: &str| -> String {
+            s.bytes().map(|b| if b.is_ascii_alphanumeric() || b"-._~".contains(&b) { (b as char).to_string() } else { format!("%{:02X}", b) }).collect()
+        };
+        let mut qs: Vec<String> = Vec::new();
+        qs.push(format!("X-Amz-Algorithm={}", enc(&alg)));
+        if !r.chance(1, 12) {
+            qs.push(format!("X-Amz-Credential={}", enc(&cred)));
+        }
+        if !r.chance(1, 12) {
+            qs.push(format!("X-Amz-Date={}", enc(&stamp)));
+        }
+        if let Some(t) = &token {
+            qs.push(format!("X-Amz-Security-Token={}", enc(t)));
+        }
+        if !r.chance(1, 12) {
+            qs.push(format!("X-Amz-SignedHeaders={}", enc(&signed.join(";"))));
+        }
+        if !r.chance(1, 12) {
+            qs.push(format!("X-Amz-Signature={}", enc(&sig)));
+        }
+        if !query.is_empty() {
+            query.push('&');
+        }
+        query.push_str(&qs.join("&"));
+    }
+    let uri = if query.is_empty() { path } else { format!("{}?{}", path, query) };
+    let body: Vec<u8> = match r.below(5) {
+        0 => Vec::new(),
+        1 => b"a=1&b=2".to_vec(),
+        2 => rand_query(r).into_bytes(),
+        3 => (0..r.below(40)).map(|_| r.below(256) as u8).collect(),
+        _ => b"hello".to_vec(),
+    };
+    let lists = |r: &mut Rng, xs: &[&str]| -> Vec<serde_json::Value> {
+        xs.iter().filter(|_| r.chance(1, 4)).map(|s| jbytes(s.as_bytes())).collect()
+    };
+    let outc = ["ok", "ok", "ok", "sigerr", "foreign"];
+    json!({
+        "op": "req", "id": ["reqfuzz", id], "method": jbytes(method.as_bytes()), "uri": jbytes(uri.as_bytes()), "version": "HTTP/1.1",
+        "headers": headers.iter().map(|(n, v)| json!([jbytes(n.as_bytes()), jbytes(v)])).collect::<Vec<_>>(),
+        "body": jbytes(&body),
+        "cfg": {"region": jbytes(region.as_bytes()), "service": jbytes(service.as_bytes()), "now": [base_day, now_sec, 0],
+                "s3": r.chance(1, 3), "fold": r.chance(1, 2),
+                "always": lists(r, &["Content-Type", "x-req"]), "ifin": lists(r, &["ETag", "X-Opt"]), "prefix": lists(r, &["X-Amz", "x-a"]),
+                "reqimpl": pick_s(r, &["slice", "vec", "vecadd"]), "bodykind": "bytes"},
+        "script": {"readyIn": r.below(3), "ready": pick_s(r, &outc), "pendIn": r.below(3), "answer": pick_s(r, &outc),
+                   "errKind": pick_s(r, &["InvalidClientTokenId", "ExpiredToken", "SignatureDoesNotMatch", "InternalServiceError"]),
+                   "principal": id as i64 % 1000, "secret": jbytes(b"wJalrXUtnFEMI/K7MDENG+bPxRfiCYEXAMPLEKEY")},
+        "sign": "none"
+    })
+}
+
 pub fn generate(family: &str, seed: u64, n: usize, w: &mut impl Write) -> usize {
     let mut r = Rng::new(seed ^ 0x5eed);
     let mut cnt = 0;
-    for _ in 0..n {
+    for i in 0..n {
         let v = match family {
+            "reqfuzz" => rand_req(&mut r, i),
             "path" => json!({"op": "path", "p": jbytes(rand_path(&mut r).as_bytes()), "s3": r.chance(1, 2)}),
             "query" => json!({"op": "query", "q": jbytes(rand_query(&mut r).as_bytes())}),
             "elem" => json!({"op": "elem", "el": jbytes(rand_piece(&mut r, &[]).as_bytes()), "plus": r.chance(1, 2)}),
